@@ -539,7 +539,7 @@ impl<'a> Iterator for FinalStateIterator<'a> {
     }
 }
 
-#[derive(Debug)]
+#[derive(Debug, Clone)]
 struct StateInConstruction {
     is_final: bool,
     default_successor: Option<usize>,
@@ -716,12 +716,15 @@ impl<T: Eq + Hash + Clone> AutomatonBuilder<T> {
         let n = self.size;
         let mut num_final_states = 0;
         let mut state_array = Vec::with_capacity(n);
-        for (i, s) in self.states.iter_mut().enumerate() {
+        for (i, s) in self.states.iter().enumerate() {
             // check the transitions as specified, before cleanup rewrites them
             let specified = s.make_partition()?;
             if s.default_successor.is_none() && !specified.empty_complement() {
                 return Err(Error::MissingDefaultSuccessor);
             }
+            // cleanup works on a copy: the builder keeps the transitions as given
+            // so that it can be extended and built again
+            let mut s = s.clone();
             s.cleanup();
             let p = s.make_partition()?;
             if s.default_successor.is_some() && p.empty_complement() {
@@ -758,7 +761,8 @@ impl<T: Eq + Hash + Clone> AutomatonBuilder<T> {
         let num_states = self.size;
         let mut num_final_states = 0;
         let mut state_array = Vec::with_capacity(num_states);
-        for (i, s) in self.states.iter_mut().enumerate() {
+        for (i, s) in self.states.iter().enumerate() {
+            let mut s = s.clone();
             s.cleanup();
             let p = s.make_partition().unwrap();
             let successor = s.make_successor(&p);
